@@ -75,6 +75,18 @@ fn act_of(acts: &[(u32, bool, Option<i64>)], idx: u32) -> (bool, Option<i64>) {
 }
 
 pub fn apply_storage_op(ex: &mut Exec, uid: u32, kind: &OpKind) -> R {
+    if let OpKind::ByRef(inner) = kind {
+        struct Reset;
+        impl Drop for Reset {
+            fn drop(&mut self) {
+                crate::comps::BYREF.store(false, std::sync::atomic::Ordering::Relaxed);
+            }
+        }
+        let _reset = Reset;
+        crate::comps::BYREF.store(true, std::sync::atomic::Ordering::Relaxed);
+        ex.stats.probe("generic_storage_by_reference_overload");
+        return apply_storage_op(ex, uid, inner);
+    }
     let state_props: Vec<&str> = match kind {
         OpKind::Insert {
             slot,
